@@ -34,6 +34,7 @@ type engineImpl struct {
 	dbf, jf, wf, sf *os.File
 	client          *fakeClient
 
+	exitSnap  string           // copy of the data directory taken when Store.Exit was called
 	held      *litefs.GuardSet // internal write lock held by the `whold` op
 	abandoned []abandonedStore // stores of "dead" processes (crash restarts)
 
@@ -113,6 +114,9 @@ func (m *engineImpl) Close() {
 		_ = os.RemoveAll(a.dir)
 	}
 	m.abandoned = nil
+	if m.exitSnap != "" {
+		_ = os.RemoveAll(m.exitSnap)
+	}
 	if m.store != nil {
 		_ = m.store.Close()
 		m.store = nil
@@ -149,9 +153,18 @@ func (m *engineImpl) openStore(role string) error {
 	st.RetentionMonitorInterval = 0
 	st.HaltLockMonitorInterval = time.Hour
 	st.ReconnectDelay = time.Hour
+	st.DemoteDelay = time.Hour
 	st.Exit = func(code int) {
 		if m.exit == 0 {
 			m.exit = code
+			// the real process dies here: keep what it leaves behind for a later `reopen`
+			if d, err := os.MkdirTemp(os.Getenv("VERIF_SCRATCH"), "verif-exit-"); err == nil {
+				if copyTree(filepath.Join(m.dir, "data"), filepath.Join(d, "data")) == nil {
+					m.exitSnap = d
+				} else {
+					_ = os.RemoveAll(d)
+				}
+			}
 		}
 	}
 	st.Compress = m.c != nil && m.c.Flag("lz4")
@@ -258,7 +271,7 @@ func (m *engineImpl) Do(line string) string {
 		return "bad-op"
 	}
 	ctx := context.Background()
-	if m.exit != 0 && f[0] != "state" && f[0] != "ltx" && f[0] != "raw" && f[0] != "crash-end" && f[0] != "crashpoint" {
+	if m.exit != 0 && f[0] != "state" && f[0] != "ltx" && f[0] != "raw" && f[0] != "crash-end" && f[0] != "crashpoint" && f[0] != "reopen" {
 		return "exited"
 	}
 	atoi := func(s string) (int64, bool) { v, err := strconv.ParseInt(s, 10, 64); return v, err == nil }
@@ -712,6 +725,18 @@ func (m *engineImpl) Do(line string) string {
 			parts = append(parts, k+"="+l[k])
 		}
 		return strings.Join(parts, " ")
+	case "demote": // the node loses its lease (manual demotion); it does not try to become primary again
+		if m.store == nil {
+			return "bad-op"
+		}
+		m.store.Demote()
+		for i := 0; i < 2000 && m.store.IsPrimary(); i++ {
+			time.Sleep(time.Millisecond)
+		}
+		if m.store.IsPrimary() {
+			return "still-primary"
+		}
+		return "ok"
 	case "whold": // LiteFS takes its internal write lock and keeps it (apply / checkpoint / import / halt in progress)
 		if !m.need() || m.held != nil {
 			return "bad-op"
@@ -781,8 +806,16 @@ func (m *engineImpl) crashRestart(role string) string {
 	if err != nil {
 		return "err"
 	}
-	if err := copyTree(filepath.Join(m.dir, "data"), filepath.Join(newDir, "data")); err != nil {
+	src := m.dir
+	if m.exitSnap != "" {
+		src = m.exitSnap // the process had already died at Store.Exit
+	}
+	if err := copyTree(filepath.Join(src, "data"), filepath.Join(newDir, "data")); err != nil {
 		return "err copy"
+	}
+	if m.exitSnap != "" {
+		_ = os.RemoveAll(m.exitSnap)
+		m.exitSnap = ""
 	}
 	m.closeFiles()
 	m.abandoned = append(m.abandoned, abandonedStore{m.store, m.dir}) // closed (after its files are removed) at the end of the case
